@@ -304,30 +304,45 @@ fn check_grid_unit(run: &mut Run, scratch: &Scratch, u: &UnitDesc) {
                         }
                     }
                 }
-                if quick && (threads == 3 || buf == 0) && bl != 2 {
-                    continue;
+            }
+        }
+    }
+    // (1b) sorted / shuffled batching: the batch sequence is a function of (files, pipeline, seed,
+    // epoch, batching configuration) only -- compared with the loader without workers and with buffer
+    // size 1 for every worker count and every buffer size (smaller than, equal to and larger than
+    // the prefetch factor)
+    for (bl, blt) in [(1usize, 0usize), (2, 0), (40, 1)] {
+        for (sort, shuffle) in [(true, false), (false, true), (true, true)] {
+            for pf in [1usize, 2] {
+                let cref = Cfg { sort, shuffle, pf, bl, blt, ..base.clone() };
+                loader_runs += 1;
+                let oref = drain(&cref, max_batches);
+                if let Ok(o) = &oref {
+                    let mut a: Vec<Item> = o.iter().flatten().cloned().collect();
+                    a.sort();
+                    let mut b = r.clone();
+                    b.sort();
+                    if a != b {
+                        viol!("sorted-shuffled-same-items", cfgjson(&cref), "the multiset of items differs from the single-process stream".to_string());
+                    }
                 }
-                for (sort, shuffle) in [(true, false), (false, true), (true, true)] {
-                    let c2 = Cfg { sort, shuffle, pf: 2, ..c.clone() };
-                    run.evaluations += 1;
-                    loader_runs += 2;
-                    let o1 = drain(&c2, max_batches);
-                    let o2 = drain(&Cfg { threads: 0, ..c2.clone() }, max_batches);
-                    match (o1, o2) {
-                        (Ok(o1), Ok(o2)) => {
-                            run.compared += 1;
-                            if o1 != o2 {
-                                viol!("sorted-shuffled-batches-independent-of-threads", cfgjson(&c2), format!("{:?} vs single-threaded {:?}", o1.iter().map(|b| names(b).join(",")).collect::<Vec<_>>(), o2.iter().map(|b| names(b).join(",")).collect::<Vec<_>>()));
-                            }
-                            let mut a: Vec<Item> = o1.into_iter().flatten().collect();
-                            a.sort();
-                            let mut b = r.clone();
-                            b.sort();
-                            if a != b {
-                                viol!("sorted-shuffled-same-items", cfgjson(&c2), "the multiset of items differs from the single-process stream".to_string());
-                            }
+                for threads in [0u8, 1, 2, 3] {
+                    for buf in [0usize, 1, 2, 3] {
+                        if (threads == 0 && buf == 1) || (quick && (threads == 3 || buf == 0) && bl != 2) {
+                            continue;
                         }
-                        (a, b) => viol!("sorted-shuffled-batches-independent-of-threads", cfgjson(&c2), format!("loader failed: {:?} / {:?}", a.err(), b.err())),
+                        let c2 = Cfg { threads, buf, ..cref.clone() };
+                        run.evaluations += 1;
+                        loader_runs += 1;
+                        match (drain(&c2, max_batches), &oref) {
+                            (Ok(o1), Ok(o2)) => {
+                                run.compared += 1;
+                                if &o1 != o2 {
+                                    viol!("sorted-shuffled-batches-independent-of-threads-and-buffer", cfgjson(&c2), format!("{:?} vs no workers, buffer size 1: {:?}", o1.iter().map(|b| names(b).join(",")).collect::<Vec<_>>(), o2.iter().map(|b| names(b).join(",")).collect::<Vec<_>>()));
+                                }
+                            }
+                            (a, b) => viol!("sorted-shuffled-batches-independent-of-threads-and-buffer", cfgjson(&c2), format!("loader failed: {:?} / {:?}", a.err(), b.as_ref().err())),
+                        }
                     }
                 }
             }
